@@ -270,7 +270,7 @@ func (r *Run) checkClaims(o *batchOutcome) {
 	won := map[string][]int{}
 	reopen := false
 	for i, c := range o.cmds {
-		if !o.ok[i] && !o.busy[i] && (c.Op == "claim") {
+		if !o.ok[i] && !o.busy[i] && c.Op == "claim" && c.Agent != "" {
 			r.viol("C01", "claim-failed", sigWord(firstLine(o.procs[i].Stderr)), "claim by %s failed with something other than lock busy: %s", c.Agent, tail(o.procs[i].Stderr))
 		}
 		if c.State != nil && *c.State == "todo" {
@@ -735,6 +735,14 @@ func genBatch(prop string, g *Gen, m *Model, rng *SplitMix) []Cmd {
 				cmds = append(cmds, Cmd{Op: "list", LReady: true})
 			}
 		}
+	case "C10":
+		// a lock holder is stalled inside its lock section while the commands
+		// under test run: they must fail with lock busy and change nothing
+		cmds = []Cmd{mutation()}
+		n := 1 + rng.Intn(3)
+		for i := 0; i < n; i++ {
+			cmds = append(cmds, mutation())
+		}
 	default: // C02
 		switch rng.Intn(8) {
 		case 0:
@@ -816,6 +824,10 @@ func runConcSample(bin, prop string, seed uint64, thorough bool) *RunReport {
 		case "C01":
 			if c.Op == "claim" && len(sweepers) < 2 {
 				sweepers = append(sweepers, i)
+			}
+		case "C10":
+			if i == 0 {
+				sweepers = append(sweepers, i) // the stalled lock holder
 			}
 		case "C13":
 			sweepers = append(sweepers, i) // readers against writers and writers against readers
